@@ -172,9 +172,6 @@ package mqtt
 // verif:func packets.Packet.ConnackEncode trusted
 //@ modifies buf.blen, buf.bdata
 //@ ensures buf.blen >= old(buf.blen) && buf.blen <= old(buf.blen) + 4294967295 && buf.rpos == old(buf.rpos)
-// verif:func packets.Packet.PublishEncode trusted
-//@ modifies buf.blen, buf.bdata
-//@ ensures buf.blen >= old(buf.blen) && buf.blen <= old(buf.blen) + 4294967295 && buf.rpos == old(buf.rpos)
 // verif:func packets.Packet.SubscribeEncode trusted
 //@ modifies buf.blen, buf.bdata
 //@ ensures buf.blen >= old(buf.blen) && buf.blen <= old(buf.blen) + 4294967295 && buf.rpos == old(buf.rpos)
